@@ -366,7 +366,9 @@ fn retrace(sink: &mut Sink, o: &Opts) {
     let wild = o.rest.iter().any(|a| a == "--wild");
     let cfg = gen::MapCfg { max_classes: 5, max_members: 7, wild, noise: true };
     for k in 0..o.n {
-        let m = if wild && k % 3 == 0 {
+        let m = if !wild && focus != "names" && k % 10 == 9 {
+            gen::mapping_big_class(&mut rng)
+        } else if wild && k % 3 == 0 {
             gen::byte_soup(&mut rng)
         } else if wild && k % 3 == 1 {
             let base = gen::mapping(&mut rng, &cfg);
@@ -387,6 +389,18 @@ fn retrace(sink: &mut Sink, o: &Opts) {
         let mut qs: Vec<Value> = vec![];
         for _ in 0..per_session {
             qs.push(gen::query(&mut rng, &uni, &focus));
+        }
+        // systematic part: every (class, method) pair of the first few names, with a line no range
+        // contains (only range-less entries apply, in file order) and one inside the file's ranges
+        if focus == "all" || focus == "frame" {
+            for class in uni.classes.iter().take(4) {
+                for method in uni.methods.iter().take(8) {
+                    for line in [0u128, uni.lines.first().copied().unwrap_or(1)] {
+                        qs.push(json!({"t": "frame", "frame": {"class": enc::s(class), "method": enc::s(method),
+                                       "line": enc::dec(line), "file": [], "params": []}}));
+                    }
+                }
+            }
         }
         if wild {
             // the remaining public entry points with arbitrary Unicode text; only completion matters here
@@ -565,6 +579,7 @@ fn cache(sink: &mut Sink, o: &Opts) {
         srcs.push(match k % 7 {
             0 => gen::mapping_many_classes(&mut rng, 5 + k % 40),
             1 => gen::mapping_long_strings(&mut rng),
+            2 => gen::mapping_big_class(&mut rng),
             _ => gen::mapping(&mut rng, &cfg),
         });
     }
